@@ -468,13 +468,25 @@ impl PredicatePushdown {
             }
 
             LogicalPlan::Limit(node) => {
-                // Push through limit
-                let input = self.pushdown(&node.input, predicates)?;
-                Ok(LogicalPlan::Limit(crate::planner::LimitNode {
+                // A predicate must NOT move below LIMIT/OFFSET: the limit picks
+                // rows m+1..m+n of its input, and filtering that input first
+                // picks different rows (`SELECT * FROM (SELECT .. ORDER BY x
+                // LIMIT 5) d WHERE d.x IS NULL`). Everything stops here.
+                let input = self.pushdown(&node.input, vec![])?;
+                let limit = LogicalPlan::Limit(crate::planner::LimitNode {
                     input: Arc::new(input),
                     skip: node.skip,
                     fetch: node.fetch,
-                }))
+                });
+                if predicates.is_empty() {
+                    Ok(limit)
+                } else {
+                    let combined = self.combine_predicates(predicates);
+                    Ok(LogicalPlan::Filter(FilterNode {
+                        input: Arc::new(limit),
+                        predicate: combined,
+                    }))
+                }
             }
 
             LogicalPlan::Distinct(node) => {
